@@ -125,7 +125,7 @@ rt_full!(rt_full_z32, Z32, 0, 64, 17);
 rt_full!(rt_full_zt, ZT, 0, 32, 5);
 // @h rt_full_zu props=C01,C05,C06,C07 tier=quick kind=complete vars="v:ZU<3> (zero-sized zero-copy), pos0<16" fns="derive:ZU,deser/helpers.rs:deserialize_full_zero"
 rt_full!(rt_full_zu, ZU<3>, 0, 32, 3);
-// @h rt_full_d2 props=C01,C05,C06,C07 tier=quick kind=complete vars="v:D2{u16,Z8,Option<u8>,(u32,u32)}, pos0<16" fns="derive:D2"
+// @h rt_full_d2 props=C01,C05,C06,C07 tier=thorough kind=complete vars="v:D2{u16,Z8,Option<u8>,(u32,u32)}, pos0<16" fns="derive:D2"
 rt_full!(rt_full_d2, D2, 0, 64, 5);
 // @h rt_full_dt props=C01,C05,C06,C07 tier=quick kind=complete vars="v:DT(u32,Option<u16>), pos0<16" fns="derive:DT"
 rt_full!(rt_full_dt, DT, 0, 32, 3);
@@ -142,9 +142,9 @@ rt_full!(rt_full_ge, GE<Option<u8>>, 0, 48, 3);
 
 // @h rt_full_vec_u16 props=C01,C06,C07 tier=quick kind=bounded bound="len<=3" vars="v:Vec<u16>, pos0<16" fns="impls/vec.rs,ser/helpers.rs:serialize_slice_zero,deser/helpers.rs:deserialize_full_vec_zero"
 rt_full!(rt_full_vec_u16, Vec<u16>, 3, 48, 5);
-// @h rt_full_box_u32 props=C01,C06,C07 tier=quick kind=bounded bound="len<=2" vars="v:Box<[u32]>, pos0<16" fns="impls/boxed_slice.rs"
+// @h rt_full_box_u32 props=C01,C06,C07 tier=thorough kind=bounded bound="len<=2" vars="v:Box<[u32]>, pos0<16" fns="impls/boxed_slice.rs"
 rt_full!(rt_full_box_u32, Box<[u32]>, 2, 48, 5);
-// @h rt_full_vec_opt_u8 props=C01,C06,C07 tier=quick kind=bounded bound="len<=3" vars="v:Vec<Option<u8>>, pos0<16" fns="impls/vec.rs,ser/helpers.rs:serialize_slice_deep,deser/helpers.rs:deserialize_full_vec_deep"
+// @h rt_full_vec_opt_u8 props=C01,C06,C07 tier=thorough kind=bounded bound="len<=3" vars="v:Vec<Option<u8>>, pos0<16" fns="impls/vec.rs,ser/helpers.rs:serialize_slice_deep,deser/helpers.rs:deserialize_full_vec_deep"
 rt_full!(rt_full_vec_opt_u8, Vec<Option<u8>>, 3, 48, 5);
 // @h rt_full_vec_vec_u8 props=C01,C06,C07 tier=thorough kind=bounded bound="outer len<=2, inner len<=2" vars="v:Vec<Vec<u8>>, pos0<16" fns="impls/vec.rs"
 rt_full!(rt_full_vec_vec_u8, Vec<Vec<u8>>, 2, 64, 4);
